@@ -193,7 +193,9 @@ func c11Count(g *hx.Gen, c int) int {
 func c11Gen(g *hx.Gen) {
 	n := g.Scale(3000, 100000)
 	for k := 0; k < n && !g.Done(); k++ {
-		chunk := g.Pick(1, 1, 2, 2, 3, 4, 4, 5, 8)
+		// (5, 6, 7, 10: not a small power of two, so a buffer grown by append would have a capacity
+		// above the chunk size - seeded change C12-m5)
+		chunk := g.Pick(1, 1, 2, 2, 3, 4, 4, 5, 8, 5, 6, 7, 10)
 		ac := g.Chance(0.4)
 		ty := "i"
 		if g.Chance(0.5) {
